@@ -513,7 +513,24 @@ def find_func_locals_frame(
     #     # Python thinks this is fine.
     #     >>> def muh_func(): pass
     #     >>> muh_func.__qualname__ = '<locals>.muh_func'  # <-- curse ye!
+    #
+    # More commonly, that callable is a closure whose "__qualname__" has been
+    # replaced by that of a non-nested callable it wraps: e.g.,
+    #     >>> from functools import wraps
+    #     >>> def muh_decorator(func):
+    #     ...     @wraps(func)  # <-- copies "func.__qualname__" onto the closure
+    #     ...     def muh_closure(*args, muh_option=True, **kwargs):
+    #     ...         return func(*args, **kwargs)
+    #     ...     return muh_closure
+    #
+    # In the latter case, the name of that callable is a valid name that merely
+    # no longer identifies the parent callable declaring that callable. The
+    # local scope of that parent callable cannot be found by name; behave as
+    # for non-nested callables.
     if func_scope_names_len < 2:
+        if '<locals>' not in getattr(func, '__qualname__', '<locals>'):
+            return _GET_FUNC_LOCALS_FRAME_NONE
+
         raise exception_cls(
             f'Callable {func_name_unqualified}() fully-qualified basename '
             f'"{func_name_qualified}" invalid (e.g., placeholder substring '
